@@ -7,7 +7,7 @@ printed within the contract: `C02.exec_never_model_ne_spec`).
 
 ops: expand <keyhex> | block <16 bytes hex> [<inoff> <outoff> [inplace]] | init <nonce> | init2 <nonce> [<newkeyhex>] |
      stream <hex> [inplace [<off>] | after <off> | before <off> | <inoff> <outoff>] | streamzero <n> |
-     buf <nonce> <hex> [<inoff> <outoff> | after <off> | before <off>] |
+     buf <nonce> <hex> [<inoff> <outoff> | after <off> | before <off>] | decoy <nonce> <hex> |
      seek <block> | bigstream <nonce> <n> <tail> [again] | free
 The offsets (0..15: where the harness puts the data relative to a 16-byte boundary) and `inplace` are facts about
 pointers; the Spec's answer does not depend on them, so `parse` only checks their syntax.
@@ -55,6 +55,9 @@ def parse : List String → Option Op
       if rest != [] ∧ rest != ["again"] then none else
       orMalformed do
         pure (.bigstream (UInt64.ofNat (← nn.toNat?)) (← n.toNat?) (← t.toNat?) (rest != []))
+  -- other stream objects come and go while the one of this life stays alive: the same function of (key, nonce, data)
+  -- as `buf`, and no effect on the stream of this life (the model has no object identity to confuse)
+  | ["decoy", n, d] => orMalformed do pure (.buf (UInt64.ofNat (← n.toNat?)) (← bytesOfHex d))
   | "buf" :: n :: d :: rest =>
       let okRest := match rest with
         | [] => true
